@@ -115,7 +115,7 @@ Definition mgr_add (ns name : string) (v : ver) (d : disk) : disk * string :=
 
 (* Configurator.DeleteSecret over LocalManager.DeleteSecret (a missing file is only logged).
    [cadel = false] is the code as it stands: only ns-name is removed.
-   [cadel = true] is the repaired code (fixes/F30.diff): the two CA files are removed too. *)
+   [cadel = true] is the repaired code (fixes/F34.diff): the two CA files are removed too. *)
 Definition mgr_del (cadel : bool) (key : string) (d : disk) : disk :=
   let n := key_to_fname key in
   let d1 := remove n d in
@@ -226,3 +226,72 @@ Definition grun (h : list op) : ghost := fold_left gstep h gempty.
 Definition cur (h : list op) (k : string) : option ver := option_map fst (grun h k).
 Definition asked (h : list op) (k : string) : bool :=
   match grun h k with Some (_, a) => a | None => false end.
+
+(* ---- the controller in front of the store (internal/k8s/handlers.go createSecretHandlers,
+   task_queue.go, controller.go syncSecret) ----
+   Cluster-level events reach the store only through the work queue: a handler enqueues the KEY
+   of the object (nothing for Secrets of an unsupported type), the worker later re-reads the
+   object from the informer store and
+       object present  -> LocalSecretStore.AddOrUpdateSecret(object)   (whatever its type)
+       object absent   -> LocalSecretStore.DeleteSecret(key)
+   so several events on one key between two runs of the worker coalesce into one operation on
+   the final object. *)
+
+Definition supported_type (t : string) : bool :=      (* secrets.IsSupportedSecretType *)
+  existsb (String.eqb t) [type_tls; type_ca; type_jwk; type_oidc; type_htpasswd; type_apikey; type_license].
+
+Inductive cev :=
+| CPut (ns name : string) (v : ver)   (* the API object ns/name is created, or updated, to v *)
+| CDel (ns name : string)             (* the API object is deleted *)
+| CDrain                              (* the worker processes every queued task *)
+| CGet (key : string).                (* a resource being configured looks the Secret up *)
+
+Definition objects := string -> option ver.           (* the informer store, by key *)
+Definition oset (o : objects) (k : string) (x : option ver) : objects :=
+  fun k' => if String.eqb k' k then x else o k'.
+
+Definition qtask := (string * string)%type.            (* namespace, name of a queued Secret task *)
+Definition task_key (t : qtask) : string := key_of (fst t) (snd t).
+
+(* the work queue holds a key at most once, in the order of first insertion *)
+Fixpoint enq (t : qtask) (q : list qtask) : list qtask :=
+  match q with
+  | [] => [t]
+  | t' :: r => if String.eqb (task_key t) (task_key t') then q else t' :: enq t r
+  end.
+
+(* syncSecret *)
+Definition sync_op (o : objects) (t : qtask) : op :=
+  match o (task_key t) with
+  | Some v => Upsert (fst t) (snd t) v
+  | None => Delete (task_key t)
+  end.
+
+Record cstate := mkc { c_objs : objects; c_pend : list qtask }.
+Definition cinit : cstate := mkc (fun _ => None) [].
+
+(* one cluster-level step: new informer store / queue, and the store operations it causes *)
+Definition cstep (c : cstate) (e : cev) : cstate * list op :=
+  match e with
+  | CPut ns name v =>        (* AddFunc / UpdateFunc: ignored unless the type is supported *)
+      (mkc (oset (c_objs c) (key_of ns name) (Some v))
+           (if supported_type (vtype v) then enq (ns, name) (c_pend c) else c_pend c), [])
+  | CDel ns name =>          (* DeleteFunc, with the deleted object: same filter *)
+      match c_objs c (key_of ns name) with
+      | Some v0 => (mkc (oset (c_objs c) (key_of ns name) None)
+                        (if supported_type (vtype v0) then enq (ns, name) (c_pend c) else c_pend c), [])
+      | None => (c, [])
+      end
+  | CDrain => (mkc (c_objs c) [], map (sync_op (c_objs c)) (c_pend c))
+  | CGet k => (c, [Get k])
+  end.
+
+(* the store-level history a cluster-level history amounts to, and the final cluster state *)
+Fixpoint crun (c : cstate) (h : list cev) : cstate * list op :=
+  match h with
+  | [] => (c, [])
+  | e :: r => let '(c1, ops) := cstep c e in
+              let '(c2, ops') := crun c1 r in (c2, (ops ++ ops')%list)
+  end.
+
+Definition compile (h : list cev) : list op := snd (crun cinit h).
